@@ -40,6 +40,12 @@ impl CheckCb {
         ensures final(fx).checked@ == old(fx).checked@.insert((self.id, pid, specialised_to)), final(fx).n_checked@ == old(fx).n_checked@ + 1,
             final(fx).cleared == old(fx).cleared, final(fx).n_cleared == old(fx).n_cleared
     { }
+    /// the check callback invoked with a closure the registry wrote itself (not a user predicate): one more check-callback
+    /// invocation, with an unknown predicate
+    #[verifier::external_body]
+    pub fn invoke_with_closure(&self, fx: &mut Fx)
+        ensures final(fx).n_checked@ == old(fx).n_checked@ + 1, final(fx).cleared == old(fx).cleared, final(fx).n_cleared == old(fx).n_cleared
+    { }
 }
 
 /// R8: a user predicate by identity
@@ -197,6 +203,13 @@ def by_key(fname, table, keyparam):
               ensures=[(l, p, t.replace('KEY', keyparam)) for (l, p, t) in BY_KEY(table)])
 
 
+# a registration invokes nothing: the effect log is unchanged (C03: no entry leaves a cache because some cache registered;
+# C12 / C13: only the invalidation entry points invoke callbacks)
+NO_CB = 'final(fx).cleared == old(fx).cleared && final(fx).n_cleared == old(fx).n_cleared && final(fx).checked == old(fx).checked && final(fx).n_checked == old(fx).n_checked'
+# inside the registration functions: a local bound to a stored callback that is called -> identified invoke with effect log
+REG_INVOKE = [R('R8.invoke_local', r'(@ID@) \( \) ;', r'\1.invoke(fx);', 'dyn clear-callback call through a local -> identified invoke with effect log'),
+              R('R8.invoke_local_closure', r'(@ID@) \( & \| [^|;{}]* \| [^;{}]* \) ;', r'\1.invoke_with_closure(fx);', 'dyn check-callback call with a closure written by the registry -> one more check-callback invocation, predicate unknown')]
+
 UNIT = dict(
     name='registry',
     lemma_props={'lemma_hits_card': ['C12'], 'lemma_hits_prefix': ['C12'], 'lemma_prefix_mem': ['C12'], '*': ['C12', 'C13']},
@@ -205,7 +218,9 @@ UNIT = dict(
         dict(kind='struct', file=I, name='InvalidationRegistry', rules=CB_TYPES + TYPE_RULES),
         fn('register', rules=[R('R4.multimap_add', r'(@ID@) \. entry \( (@ID@) \. clone \( \) \) \. or_insert_with \( HashSet :: new \) \. insert \( cache_name \. to_string \( \) \)',
                                 r'multimap_add(&mut *\1, \2.clone(), cache_name.to_string())', 'entry().or_insert_with(HashSet::new).insert() -> multimap_add (assumed contract of the entry API)')],
+           sig_rules=[R('R8.fx_param', r'metadata : InvalidationMetadata \)', 'metadata: InvalidationMetadata, fx: &mut Fx)', 'effect-log parameter (R8)')],
            ensures=[
+               ('registration_invokes_no_callback', ['C03', 'C12', 'C13'], NO_CB),
                ('tags_table', ['C12', 'C13'], 'forall|x: String| #[trigger] under(final(self).tag_to_caches@, x) == (if metadata.tags@.contains(x) { under(old(self).tag_to_caches@, x).insert(s2s(cache_name)) } else { under(old(self).tag_to_caches@, x) })'),
                ('events_table', ['C12', 'C13'], 'forall|x: String| #[trigger] under(final(self).event_to_caches@, x) == (if metadata.events@.contains(x) { under(old(self).event_to_caches@, x).insert(s2s(cache_name)) } else { under(old(self).event_to_caches@, x) })'),
                ('dependencies_table', ['C12', 'C13'], 'forall|x: String| #[trigger] under(final(self).dependency_to_caches@, x) == (if metadata.dependencies@.contains(x) { under(old(self).dependency_to_caches@, x).insert(s2s(cache_name)) } else { under(old(self).dependency_to_caches@, x) })'),
@@ -214,9 +229,10 @@ UNIT = dict(
            loops={0: REG_LOOP(('tag_map', 'tag_to_caches'), 'tags'), 1: REG_LOOP(('event_map', 'event_to_caches'), 'events'), 2: REG_LOOP(('dep_map', 'dependency_to_caches'), 'dependencies')},
            hints=[(('loop_start', n), 'elem%d' % n, 'assert(*%s == metadata.%s@[it.index@ as int]);' % (v, c)) for n, (v, c) in enumerate([('tag', 'tags'), ('event', 'events'), ('dep', 'dependencies')])]
                  + [(('fn_end',), 'take_full', 'assert(metadata.tags@.take(metadata.tags@.len() as int) =~= metadata.tags@); assert(metadata.events@.take(metadata.events@.len() as int) =~= metadata.events@); assert(metadata.dependencies@.take(metadata.dependencies@.len() as int) =~= metadata.dependencies@);')]),
-        fn('register_callback', sig_rules=[R('R8.cb_param', r'< F > \( & self , cache_name : & str , callback : F \) where F : Fn \( \) \+ Send \+ Sync \+ \'static ,', '(&self, cache_name: &str, callback: ClearCb)', 'generic closure parameter -> identified callback')],
-           rules=[R('R8.arc_new', r'Arc :: new \( callback \)', 'callback', 'Arc::new(closure) -> the identified callback')],
-           ensures=[('registers_under_name', ['C12'], 'final(self).clear_callbacks@ == old(self).clear_callbacks@.insert(s2s(cache_name), callback)'),
+        fn('register_callback', sig_rules=[R('R8.cb_param', r'< F > \( & self , cache_name : & str , callback : F \) where F : Fn \( \) \+ Send \+ Sync \+ \'static ,', '(&self, cache_name: &str, callback: ClearCb, fx: &mut Fx)', 'generic closure parameter -> identified callback; effect log')],
+           rules=[R('R8.arc_new', r'Arc :: new \( callback \)', 'callback', 'Arc::new(closure) -> the identified callback')] + REG_INVOKE,
+           ensures=[('registration_invokes_no_callback', ['C03', 'C12', 'C13'], NO_CB),
+                    ('registers_under_name', ['C12'], 'final(self).clear_callbacks@ == old(self).clear_callbacks@.insert(s2s(cache_name), callback)'),
                     ('others_untouched', ['C12', 'C13'], OTHERS(['clear_callbacks']))]),
         fn('invalidate_caches', ret='count', rules=[R('R4.set_elems', r'for name in cache_names \{', 'let __elems = set_elems(cache_names); for name in __elems {', 'for x in &HashSet -> the elements the iterator yields (each once), bound to a local'),
                                                       R('R8.invoke', r'callback \( \) ;', 'callback.invoke(fx);', 'dyn callback call -> identified invoke with effect log')],
@@ -249,9 +265,10 @@ UNIT = dict(
                ('unknown_name_touches_nothing', ['C12', 'C13'], '!r ==> final(fx).cleared == old(fx).cleared && final(fx).n_cleared == old(fx).n_cleared'),
                ('no_check_callback_invoked', ['C13'], 'final(fx).checked == old(fx).checked && final(fx).n_checked == old(fx).n_checked'),
            ]),
-        fn('register_invalidation_callback', sig_rules=[R('R8.cb_param', r"< F > \( & self , cache_name : & str , callback : F \) where F : Fn \( & dyn Fn \( & str \) -> bool \) \+ Send \+ Sync \+ 'static ,", '(&self, cache_name: &str, callback: CheckCb)', 'generic closure parameter -> identified callback')],
-           rules=[R('R8.arc_new', r'Arc :: new \( callback \)', 'callback', 'Arc::new(closure) -> the identified callback')],
-           ensures=[('registers_under_name', ['C13'], 'final(self).invalidation_check_callbacks@ == old(self).invalidation_check_callbacks@.insert(s2s(cache_name), callback)'),
+        fn('register_invalidation_callback', sig_rules=[R('R8.cb_param', r"< F > \( & self , cache_name : & str , callback : F \) where F : Fn \( & dyn Fn \( & str \) -> bool \) \+ Send \+ Sync \+ 'static ,", '(&self, cache_name: &str, callback: CheckCb, fx: &mut Fx)', 'generic closure parameter -> identified callback; effect log')],
+           rules=[R('R8.arc_new', r'Arc :: new \( callback \)', 'callback', 'Arc::new(closure) -> the identified callback')] + REG_INVOKE,
+           ensures=[('registration_invokes_no_callback', ['C03', 'C12', 'C13'], NO_CB),
+                    ('registers_under_name', ['C13'], 'final(self).invalidation_check_callbacks@ == old(self).invalidation_check_callbacks@.insert(s2s(cache_name), callback)'),
                     ('others_untouched', ['C12', 'C13'], OTHERS(['invalidation_check_callbacks']))]),
         fn('invalidate_with', ret='r',
            sig_rules=[R('R8.pred_param', r'< F > \( & self , cache_name : & str , predicate : F \) -> bool where F : Fn \( & str \) -> bool ,', '(&self, cache_name: &str, predicate: PredId, fx: &mut Fx) -> bool', 'generic predicate parameter -> predicate identity; effect log')],
